@@ -3,6 +3,7 @@ package eckpt
 import (
 	"bytes"
 	"fmt"
+	"github.com/sarchlab/akita/v5/mem/vm"
 	"os"
 	"path/filepath"
 
@@ -62,6 +63,19 @@ func (h traceHook) Func(ctx hooking.HookCtx) {
 
 var simSeq int
 
+// PTOp is one operation on a stand-alone page table registered with the
+// simulation (it takes part in the checkpoint like any other resource).
+type PTOp struct {
+	Op    string `json:"op"` // insert find remove update
+	PID   uint32 `json:"pid"`
+	VPage uint64 `json:"vpage"`
+	PPage uint64 `json:"ppage,omitempty"`
+}
+
+// extraPT, when non-nil, makes newSim register a page table; a fresh (kicked)
+// run applies the operations, a rebuilt run registers it empty.
+var extraPT []PTOp
+
 // newSim builds the simulation described by cfg on a real simulation.Simulation.
 // kick starts the requesters (a fresh run); a run that will load a checkpoint
 // must not be kicked (the engine queue has to be empty for the load).
@@ -88,6 +102,34 @@ func newSim(cfg *emem.Config, env *kit.Env, kick bool) *simRun {
 
 	r.asm = emem.BuildOn(r.sim, cfg, w)
 	r.eng.AcceptHook(traceHook{r})
+
+	if extraPT != nil {
+		pt := vm.MakePageTableBuilder().WithSimulation(r.sim).WithLog2PageSize(12).Build("PageTable")
+
+		if kick {
+			for _, o := range extraPT {
+				va := o.VPage << 12
+
+				switch o.Op {
+				case "insert":
+					if _, found := pt.Find(vm.PID(o.PID), va); !found {
+						pt.Insert(vm.Page{PID: vm.PID(o.PID), VAddr: va, PAddr: o.PPage << 12, PageSize: 4096, Valid: true, DeviceID: 1})
+					}
+				case "find":
+					pt.Find(vm.PID(o.PID), va)
+				case "remove":
+					if _, found := pt.Find(vm.PID(o.PID), va); found {
+						pt.Remove(vm.PID(o.PID), va)
+					}
+				case "update":
+					if pg, found := pt.Find(vm.PID(o.PID), va); found {
+						pg.PAddr = o.PPage << 12
+						pt.Update(pg)
+					}
+				}
+			}
+		}
+	}
 
 	if kick {
 		for _, q := range reqs {
